@@ -52,3 +52,8 @@ func init() {
 		ruleGlobalState(r, map[string]bool{"globalFootnoteManager": true, "globalNumberingManager": true})
 	}}}}
 }
+
+func init() {
+	props["C16"] = PropSpec{Title: "tmpl", Explanation: "tmp", Rules: []Rule{{"regex-lazy", "f", ruleRegexLazy}, {"pass-order", "p", rulePassOrder}, {"closure-ret", "p", ruleClosureRet}}}
+	props["C01"] = PropSpec{Title: "wf", Explanation: "tmp", Rules: []Rule{{"raw-xml", "f", ruleRawXML}}}
+}
